@@ -277,21 +277,32 @@ def branches_on_result(fn, callee):
 
 def producer_kinds(facts):
     """wrapper kinds whose .node() feeds External::new in resolve.rs"""
+    from facts import callee_id
     kinds = {}
-    for q, l in facts.by_qname.items():
-        if not q.startswith('oal_compiler::resolve::'):
-            continue
-        fn = l[0]
-        if not fn.hir:
-            continue
-        ctx = FnCtx(fn)
+    fns = [l[0] for q, l in facts.by_qname.items() if q.startswith('oal_compiler::resolve::') and l[0].hir]
+
+    def feed(fn, a, depth):
+        """record the wrapper kind of `a` (= X.node()), or follow a parameter of a private helper to its callers"""
+        while a['k'] in ('addr', 'unary', 'cast'):
+            a = a['e']
+        if a['k'] == 'mcall' and a['name'] == 'node':
+            m = WRAP.search(a['recv']['ty'])
+            if m:
+                kinds.setdefault(m.group(1), []).append(fn.qname)
+            return
+        if a['k'] == 'path' and a['p'].get('res') == 'local' and depth < 3:
+            src = FnCtx(fn).bind.get(a['p']['hid'])
+            if src and src[0] == 'param':
+                for g in fns:
+                    for e2, _ in hir_walk(g.hir['body']):
+                        if e2['k'] == 'call' and callee_id(e2) == fn.id and src[1] < len(e2['args']):
+                            feed(g, e2['args'][src[1]], depth + 1)
+            elif src and src[0] == 'let':
+                feed(fn, src[1], depth + 1)
+    for fn in fns:
         for e, anc in hir_walk(fn.hir['body']):
             if e['k'] == 'call' and (callee_def(e) or '').endswith('External::new') and e['args']:
-                a = e['args'][0]
-                if a['k'] == 'mcall' and a['name'] == 'node':
-                    m = WRAP.search(a['recv']['ty'])
-                    if m:
-                        kinds.setdefault(m.group(1), []).append(q)
+                feed(fn, e['args'][0], 0)
     return kinds
 
 
